@@ -324,6 +324,11 @@ KINDS = [
         boolean("vary_by_categories", src="_BasePlot.vary_by_categories (bool(value) taken)"),
         boolean("has_data_labels", src="_BasePlot.has_data_labels (bool(value) taken)"),
     ]),
+    dict(kind="StackedBarPlot", classes=["BarPlot"], deck="bar", path="slides[0].shapes[2].chart.plots[0]", corpus="-", props=[
+        P("gap_width", "int", lo=0, hi=500, q=1, typ=(50, 150, 300), src="BarPlot.gap_width: integer percentage; limits not stated (ST_GapAmount 0..500)"),
+        P("overlap", "int", lo=-100, hi=100, q=1, edgeDoc=True, typ=(50, 0, -25), src="BarPlot.overlap: int in range -100..100"),
+        boolean("vary_by_categories", src="_BasePlot.vary_by_categories (bool(value) taken)"),
+    ]),
     dict(kind="BarSeries", classes=["BarSeries"], deck="bar", path="slides[0].shapes[0].chart.plots[0].series[0]", corpus="barseries", props=[
         boolean("invert_if_negative", src="BarSeries.invert_if_negative: bool")]),
     dict(kind="LineSeries", classes=["LineSeries"], deck="line", path="slides[0].shapes[0].chart.plots[0].series[0]", corpus="lineseries", props=[
